@@ -37,7 +37,8 @@ def r7(ctx, cfg):
     """who may change the ledger"""
     F = cfg.facts
     R = "C09.R7"
-    q.who_may_call(ctx, R, F, B + "set_balance", {B + "init_balance", B + "mint", B + "burn"}, "balances are written by init_balance, mint and burn only")
+    q.who_may_call(ctx, R, F, B + "set_balance", {B + "init_balance", B + "mint", B + "burn"}, "balances are written by init_balance, mint and burn only",
+                   accept=lambda caller: caller == B + "send" and _send_steps(cfg))      # (the two steps written out in send itself: C09.R1)
     def module_arm(helper):
         # a further message arm of the bank module may use the helper when it does what the existing arms do: the amount is a
         # field of the message as it is, the account is the sender or a validated address of the message, the store is the
@@ -86,56 +87,158 @@ def r7(ctx, cfg):
     q.who_may_call(ctx, R, F, B + "send", {EXEC}, "transfers are performed by BankMsg::Send only", accept=keeper_entry)
 
 
+def _unwrap(o):
+    while o[0] == "vp":
+        o = o[2]
+    return o
+
+
+def _nb_of(o):
+    """payload X of `NativeBalance(X)`"""
+    o = peel(o)
+    return o[2][0][1] if o[0] == "agg" and o[1].startswith("cw_utils::NativeBalance") and o[2] else None
+
+
+def _loaded(o):
+    """(store, account) when o is `get_balance(store, account)?`"""
+    o = peel(o)
+    if o[0] == "ok" and peel(o[1])[0] == "call" and peel(o[1])[1] == B + "get_balance":
+        c = peel(o[1])
+        return c[2][1], c[2][2], c
+    return None
+
+
+def _ledger_steps(cfg, f):
+    """what `f` does to balances, in execution order, whatever it is composed of: calls of `burn` / `mint` (each a debit / credit of
+    its arguments: C09.R2) or the same steps written out - `set_balance(store, A, (NativeBalance(get_balance(store, A)?) - amount)?)`,
+    the subtraction taken for the whole amount or coin by coin over all of it, and `set_balance(store, A, NativeBalance(get_balance(store,
+    A)?) + NativeBalance(amount))`. Each step: dict(kind, via, block, call, store, who, amount, load (the get_balance call origin or None), detail)"""
+    F, P = cfg.facts, cfg.prov
+    cf = cfg_of(f)
+    steps = []
+    for bid, t in f.calls():
+        k = t["callee"]["key"]
+        if k in (B + "burn", B + "mint"):
+            a = P.call_args(f, t, bid)
+            steps.append(dict(kind="debit" if k.endswith("burn") else "credit", via=k, block=bid, call=t, store=a[1], who=a[2], amount=a[3], load=None, detail=""))
+        elif k == B + "set_balance":
+            a = P.call_args(f, t, bid)
+            st = dict(kind="other", via="inline", block=bid, call=t, store=a[1], who=a[2], amount=None, load=None, detail=fmt(a[3])[:160])
+            val = peel(a[3])
+            inner = peel(val[2][0]) if val[0] == "call" and val[1] == "cw_utils::NativeBalance::into_vec" and val[2] else None
+            if inner is not None and inner[0] == "call" and inner[1] == "std::ops::Add::add" and (inner[3] or "").startswith("<cw_utils::NativeBalance as std::ops::Add<cw_utils::NativeBalance>"):
+                l, r = _nb_of(inner[2][0]), _nb_of(inner[2][1])
+                ld = _loaded(l) if l is not None else None
+                if ld and r is not None:
+                    st.update(kind="credit", amount=r, load=ld)
+            elif inner is not None and inner[0] == "ok" and peel(inner[1])[0] == "call" and peel(inner[1])[1] == "std::ops::Sub::sub" and \
+                    (peel(inner[1])[3] or "").startswith("<cw_utils::NativeBalance as std::ops::Sub<std::vec::Vec<cosmwasm_std::Coin>>"):
+                c = peel(inner[1])
+                l = _nb_of(c[2][0])
+                ld = _loaded(l) if l is not None else None
+                if ld and q.error_propagates(P, f, c[4][1]) if len(c) > 4 and c[4] else False:
+                    st.update(kind="debit", amount=c[2][1], load=ld)
+            elif inner is not None and inner[0] == "multi" and len(inner[1]) == 2:
+                # coin by coin: `let mut b = NativeBalance(load); for c in amount { b = (b - c.clone())?; }`
+                al = [peel(x) for x in inner[1]]
+                init = [x for x in al if _nb_of(x) is not None]
+                stepv = [x for x in al if x[0] == "ok" and peel(x[1])[0] == "call" and peel(x[1])[1] == "std::ops::Sub::sub"]
+                if len(init) == 1 and len(stepv) == 1:
+                    c = peel(stepv[0][1])
+                    ld = _loaded(_nb_of(init[0]))
+                    acc = peel(c[2][0])
+                    e = peel(c[2][1])
+                    whole = e[0] == "bound" and e[1] == "elem" and [lp for lp in q.loops_yielding(P, f, e) if not q.chain_adapters(lp[1])]
+                    if ld and (acc == init[0] or acc[0] == "cycle") and (c[3] or "").startswith("<cw_utils::NativeBalance as std::ops::Sub<cosmwasm_std::Coin>") and \
+                            whole and len(q.loops_yielding(P, f, e)) == 1 and len(c) > 4 and c[4] and q.error_propagates(P, f, c[4][1]):
+                        st.update(kind="debit", amount=e[2], load=ld)
+            steps.append(st)
+    rank = {id(x): sum(1 for y in steps if y is not x and cf.dominates(y["block"], x["block"])) for x in steps}
+    steps.sort(key=lambda x: rank[id(x)])
+    return steps
+
+
+def _normalised(o, pname="amount"):
+    """o is `normalize_amount(<param amount, possibly cloned>)?`"""
+    o = peel(o)
+    return o[0] == "ok" and peel(o[1])[0] == "call" and peel(o[1])[1] == B + "normalize_amount" and is_param(peel(o[1])[2][1], pname)
+
+
+
 def _ok_of_call(o, key):
     o = peel(o)
     return o[0] == "ok" and peel(o[1])[0] == "call" and peel(o[1])[1] == key
 
 
-def r1(ctx, cfg, R="C09.R1"):
+def _send_steps(cfg, R=None, ctx=None):
+    """send = debit(from, amount) then credit(to, amount): returns True when all obligations hold (reports them when ctx is given)"""
     F, P = cfg.facts, cfg.prov
     key = B + "send"
-    f = ctx.need_fn(R, key)
+    f = F.fn(key)
     if f is None:
-        return
+        return False
     cf = cfg_of(f)
-    burn, mint = q.calls(f, B + "burn"), q.calls(f, B + "mint")
-    ctx.ob(R, key, "one-burn-one-mint", len(burn) == 1 and len(mint) == 1, "send must debit once and credit once (found %d/%d)" % (len(burn), len(mint)),
-           fn=f, sample="1/1")
-    if len(burn) != 1 or len(mint) != 1:
-        return
-    (bb, bt), (mb, mt) = burn[0], mint[0]
-    ba, ma = P.call_args(f, bt, bb), P.call_args(f, mt, mb)
-    ctx.ob(R, key, "debit-from-sender", is_param(ba[2], "from_address"), "debit hits %s" % fmt(ba[2]), fn=f, line=bt["line"], sample=fmt(ba[2]))
-    ctx.ob(R, key, "credit-to-recipient", is_param(ma[2], "to_address"), "credit hits %s" % fmt(ma[2]), fn=f, line=mt["line"], sample=fmt(ma[2]))
-    ctx.ob(R, key, "same-amount", is_param(ba[3], "amount") and is_param(ma[3], "amount"), "debit %s vs credit %s" % (fmt(ba[3]), fmt(ma[3])), fn=f,
-           sample="amount / amount")
-    ctx.ob(R, key, "same-store", is_param(ba[1], "bank_storage") and is_param(ma[1], "bank_storage"), "different stores", fn=f, sample="bank_storage")
-    conds = q.dominating_conditions(P, f, mb)
-    ok = any(c[0] == "variant_in" and c[2] in (("Continue",), ("Ok",)) and peel(c[1])[0] == "call" and peel(c[1])[1] == B + "burn" for e, c in conds)
-    ctx.ob(R, key, "credit-only-after-successful-debit", ok, "mint is not dominated by the success edge of `burn(..)?`", fn=f, line=mt["line"],
-           sample="mint dominated by Continue(burn(..))")
+    steps = _ledger_steps(cfg, f)
+    res = []
+
+    def ob(inst, ok, msg, sample, line=None):
+        res.append(bool(ok))
+        if ctx is not None:
+            ctx.ob(R, key, inst, ok, msg, fn=f, line=line, sample=sample)
+    kinds = [st["kind"] for st in steps]
+    ob("one-burn-one-mint", kinds == ["debit", "credit"], "send must debit once and then credit once (found %s)" % kinds, "debit, credit")
+    if kinds != ["debit", "credit"]:
+        return False
+    d, c = steps
+    ob("debit-from-sender", is_param(d["who"], "from_address") and (d["load"] is None or is_param(d["load"][1], "from_address")), "debit hits %s" % fmt(d["who"]), fmt(d["who"]),
+       line=d["call"]["line"])
+    ob("credit-to-recipient", is_param(c["who"], "to_address") and (c["load"] is None or is_param(c["load"][1], "to_address")), "credit hits %s" % fmt(c["who"]), fmt(c["who"]),
+       line=c["call"]["line"])
+
+    def amount_ok(st):
+        # a call of burn / mint normalises its argument itself; a step written out works on the normalised amount
+        return is_param(st["amount"], "amount") if st["load"] is None else _normalised(st["amount"])
+    ob("same-amount", amount_ok(d) and amount_ok(c), "debit %s vs credit %s" % (fmt(d["amount"])[:80], fmt(c["amount"])[:80]), "amount / amount")
+    ob("same-store", is_param(d["store"], "bank_storage") and is_param(c["store"], "bank_storage") and
+       all(st["load"] is None or is_param(st["load"][0], "bank_storage") for st in steps), "different stores", "bank_storage")
+    conds = q.dominating_conditions(P, f, c["block"])
+    ok = q.succeeded(conds, d["call"]["callee"]["key"]) and any(
+        c1[0] == "variant_in" and c1[2] in (("Continue",), ("Ok",)) and peel(c1[1])[0] == "call" and peel(c1[1])[4] and peel(c1[1])[4][1] == d["block"] for e, c1 in conds)
+    ob("credit-only-after-successful-debit", ok, "the credit is not dominated by the success edge of the debit", "credit dominated by Continue(debit)", line=c["call"]["line"])
+    # the recipient's balance is read after the sender's was written (a transfer to oneself reads its own debited balance)
+    ok = c["load"] is None or (len(c["load"][2]) > 4 and c["load"][2][4] and cf.dominates(d["block"], c["load"][2][4][1]) and c["load"][2][4][1] != d["block"])
+    ob("credit-reads-the-balance-left-by-the-debit", ok, "the recipient's balance is loaded before the sender's debited balance is stored: a transfer to oneself "
+       "would overwrite the debit", "get_balance(to) after set_balance(from)", line=c["call"]["line"])
     ret = peel(P.ret(f))
     rest = [o for o in alts(ret) if not (o[0] == "call" and o[1].endswith("FromResidual::from_residual"))]
-    ok = len(rest) == 1 and rest[0][0] == "call" and rest[0][1] == B + "mint"
-    ctx.ob(R, key, "credit-result-returned", ok, "send returns %s" % fmt(ret)[:120], fn=f, sample="mint(..) | propagated burn error")
+    ok = len(rest) == 1 and rest[0][0] == "call" and rest[0][1] == c["call"]["callee"]["key"] and len(rest[0]) > 4 and rest[0][4] and rest[0][4][1] == c["block"]
+    ob("credit-result-returned", ok, "send returns %s" % fmt(ret)[:120], "credit(..) | propagated debit error")
+    return all(res)
+
+
+def r1(ctx, cfg, R="C09.R1"):
+    if ctx.need_fn(R, B + "send") is None:
+        return
+    _send_steps(cfg, R, ctx)
 
 
 def r2_r4(ctx, cfg):
     F, P = cfg.facts, cfg.prov
-    for name, addr, op_trait, opname in (("burn", "from_address", "std::ops::Sub", "sub"), ("mint", "to_address", "std::ops::Add", "add")):
+    for name, addr, kind, sign in (("burn", "from_address", "debit", "-"), ("mint", "to_address", "credit", "+")):
         key = B + name
         f = ctx.need_fn("C09.R2", key)
         if f is None:
             continue
-        cf = cfg_of(f)
-        norm, getb, setb = q.calls(f, B + "normalize_amount"), q.calls(f, B + "get_balance"), q.calls(f, B + "set_balance")
-        ok = len(norm) == 1 and len(getb) == 1 and len(setb) == 1
-        ctx.ob("C09.R2", key, "shape", ok, "%s must normalise, load and store once (found %d/%d/%d)" % (name, len(norm), len(getb), len(setb)), fn=f,
+        norm = q.calls(f, B + "normalize_amount")
+        steps = _ledger_steps(cfg, f)
+        ok = len(norm) == 1 and len(steps) == 1 and steps[0]["via"] == "inline"
+        ctx.ob("C09.R2", key, "shape", ok, "%s must normalise once and store one balance (found %d normalisations, steps %s)" % (name, len(norm), [st["kind"] for st in steps]), fn=f,
                sample="normalize, get_balance, set_balance")
         if not ok:
             continue
-        (nb, nt), (gb, gt), (sb, st) = norm[0], getb[0], setb[0]
-        na, ga, sa = P.call_args(f, nt, nb), P.call_args(f, gt, gb), P.call_args(f, st, sb)
+        (nb, nt), st = norm[0], steps[0]
+        na = P.call_args(f, nt, nb)
+        sb, stt = st["block"], st["call"]
         # R3: normalisation first, on the parameter, error propagated
         ctx.ob("C09.R3", key, "normalize(param amount)", is_param(na[1], "amount"), "normalize_amount receives %s" % fmt(na[1]), fn=f,
                line=nt["line"], sample="normalize_amount(amount)")
@@ -143,43 +246,23 @@ def r2_r4(ctx, cfg):
         ok = any(c[0] == "variant_in" and c[2] in (("Continue",), ("Ok",)) and peel(c[1])[0] == "call" and peel(c[1])[1] == B + "normalize_amount"
                  for e, c in conds)
         ctx.ob("C09.R3", key, "store-only-after-normalisation-succeeded", ok, "set_balance is not dominated by the success of normalize_amount", fn=f,
-               line=st["line"], sample="set_balance dominated by Continue(normalize_amount)")
+               line=stt["line"], sample="set_balance dominated by Continue(normalize_amount)")
         # R4: same account, same store
-        ctx.ob("C09.R4", key, "load-and-store-same-account", is_param(ga[2], addr) and is_param(sa[2], addr),
-               "%s loads %s and stores %s" % (name, fmt(ga[2]), fmt(sa[2])), fn=f, sample="%s / %s" % (addr, addr))
-        ctx.ob("C09.R4", key, "load-and-store-same-store", is_param(ga[1], "bank_storage") and is_param(sa[1], "bank_storage"),
+        ld = st["load"]
+        ctx.ob("C09.R4", key, "load-and-store-same-account", ld is not None and is_param(ld[1], addr) and is_param(st["who"], addr),
+               "%s loads %s and stores %s" % (name, fmt(ld[1]) if ld else "?", fmt(st["who"])), fn=f, sample="%s / %s" % (addr, addr))
+        ctx.ob("C09.R4", key, "load-and-store-same-store", ld is not None and is_param(ld[0], "bank_storage") and is_param(st["store"], "bank_storage"),
                "%s uses different stores" % name, fn=f, sample="bank_storage")
-        # R2: the balance written
-        val = peel(sa[3])
-        d = fmt(val)[:200]
-        ok = val[0] == "call" and val[1] == "cw_utils::NativeBalance::into_vec"
-        if ok:
-            inner = peel(val[2][0])
-            if name == "burn":
-                # Continue payload of the checked subtraction
-                ok = inner[0] == "ok"
-                arith = peel(inner[1]) if ok else inner
-            else:
-                arith = inner
-            ok = ok and arith[0] == "call" and arith[1] == op_trait + "::" + opname
-            if ok:
-                lhs, rhs = peel(arith[2][0]), peel(arith[2][1])
-                lhs_ok = lhs[0] == "agg" and lhs[1].startswith("cw_utils::NativeBalance") and _ok_of_call(lhs[2][0][1], B + "get_balance")
-                if rhs[0] == "agg" and rhs[1].startswith("cw_utils::NativeBalance"):
-                    rhs = peel(rhs[2][0][1])
-                rhs_ok = _ok_of_call(rhs, B + "normalize_amount")
-                ok = lhs_ok and rhs_ok
-                # the arithmetic is the cw-utils operator, resolved
-                site = [t for b, t in f.calls() if t["callee"].get("trait") == op_trait]
-                ok = ok and len(site) == 1 and (site[0]["callee"].get("resolved") or "").startswith("<cw_utils::NativeBalance as " + op_trait)
-        ctx.ob("C09.R2", key, "writes load(%s) %s amount" % (addr, "-" if name == "burn" else "+"), ok, "%s stores %s" % (name, d), fn=f,
-               line=st["line"], sample=d[:160])
+        # R2: the balance written: load(addr) -/+ the normalised amount, by the cw-utils operator (checked subtraction, its error
+        # propagated - taken for the whole amount or coin by coin over all of it)
+        ok = st["kind"] == kind and _normalised(st["amount"])
+        ctx.ob("C09.R2", key, "writes load(%s) %s amount" % (addr, sign), ok, "%s stores %s" % (name, st["detail"]), fn=f,
+               line=stt["line"], sample=st["detail"][:160])
         if name == "burn":
-            conds = q.dominating_conditions(P, f, sb)
-            ok = any(c[0] == "variant_in" and c[2] in (("Continue",), ("Ok",)) and peel(c[1])[0] == "call" and peel(c[1])[1] == "std::ops::Sub::sub"
-                     for e, c in conds)
+            subs = [(b0, t0) for b0, t0 in f.calls() if t0["callee"].get("trait") == "std::ops::Sub"]
+            ok = st["kind"] == "debit" and bool(subs) and all(q.error_propagates(P, f, b0) for b0, t0 in subs)
             ctx.ob("C09.R2", key, "overdraw-error-propagated", ok, "set_balance is reachable although the checked subtraction failed", fn=f,
-                   line=st["line"], sample="set_balance dominated by Continue(a - amount)")
+                   line=stt["line"], sample="the error of `a - amount` leaves burn")
         ret = peel(P.ret(f))
         rest = [o for o in alts(ret) if not (o[0] == "call" and o[1].endswith("FromResidual::from_residual"))]
         ok = len(rest) == 1 and rest[0][0] == "call" and rest[0][1] == B + "set_balance"
